@@ -24,7 +24,11 @@ func VerifC08Session() {
 		asg("bad", fn(blk(yld(ilit(1)), call("fail", nm("v")), yld(ilit(2))), "v")))
 	z := g.poly(0) // the operand that decides whether (and how) the statement fails
 	var risky node.Type
-	switch vrt.Choice("operation", 4) {
+	switch vrt.Choice("operation", 5) {
+	case 4:
+		// read() at the end of standard input: the read error class
+		vrt.SetStdin("")
+		risky = call("read")
 	case 0:
 		risky = bin("/", ilit(10), z)
 	case 1:
